@@ -372,6 +372,10 @@ uint64_t fingerprint()
 int decide(const int n, const int nthr, const bool curfirst)
 {
     const int i = NDEC;
+    if (CFG.horizon > 0 && i >= CFG.horizon && i >= PREFIX_LEN)
+    {
+        return 0; // beyond the horizon: default answer, nothing recorded, nothing branched on
+    }
     if (i >= MAXDEC)
     {
         fatal(sched::ST_HANG);
@@ -453,7 +457,7 @@ int pick()
         }
         // a switch away from a runnable thread is a preemption, except at the point immediately before a
         // condition wait: the thread is about to block there anyway, only the timing of the hand-over differs
-        const bool costly = curfirst && T[CUR].op != OP_CWAIT;
+        const bool costly = CFG.count_all != 0 || (curfirst && T[CUR].op != OP_CWAIT);
         const int  n      = nthr + nsp;
         const int  c      = (n == 1) ? 0 : decide(n, nthr, costly);
         if (c < nthr)
@@ -652,7 +656,7 @@ int push_children(const int nprefix)
         }
         for (int alt = dec_n[i] - 1; alt >= 1; --alt)
         {
-            if (dec_nthr[i] >= 0 && alt < dec_nthr[i])
+            if (dec_nthr[i] < 0 || alt < dec_nthr[i])
             {
                 const int cost = dec_curfirst[i] ? 1 : 0;
                 if (dec_pre[i] + cost > CFG.budget)
@@ -1052,7 +1056,12 @@ extern "C" int pthread_cond_signal(pthread_cond_t* cv)
     else if (nw > 1)
     {
         // which waiter a signal wakes is up to the implementation: a free choice, always explored
-        wake_waiter(waiters[decide(nw, -1, false)], ocv);
+        const int w = decide(nw, -1, CFG.count_all != 0);
+        if (w > 0 && CFG.count_all != 0)
+        {
+            ++PRE_USED;
+        }
+        wake_waiter(waiters[w], ocv);
     }
     return 0;
 }
